@@ -141,16 +141,15 @@ def norm_channels(data, channels, default=None):
     return pos, scalar
 
 
-def file_settings(data, name):
-    """Amplifier settings of channel `name` derived by the oracle from the keywords."""
+def file_settings(data, name, occurrence=0):
+    """Amplifier settings of channel `name` derived by the oracle from the keywords (for a name recorded more than once:
+    of its `occurrence`-th parameter in file order)."""
     text = data.text
-    n = None
-    for k, v in text.items():
-        if k.startswith('$P') and k.endswith('N') and k[2:-1].isdigit() and v == name:
-            n = int(k[2:-1])
-            break
-    if n is None:
+    cands = sorted(int(k[2:-1]) for k, v in text.items()
+                   if k.startswith('$P') and k.endswith('N') and k[2:-1].isdigit() and v == name)
+    if not cands:
         return None
+    n = cands[min(occurrence, len(cands) - 1)]
     pne = text.get('$P%dE' % n)
     at = None
     if pne is not None:
@@ -210,7 +209,7 @@ def limits_follow_events(mon, pre, out, positions, mech):
     """C07: bitwise, each converted channel's limits are the values events at the old limits now have."""
     if not (pre.sample and is_sample(out)):
         return
-    rng_out = out.range()
+    rng_out = [out.range(p_) for p_ in range(np.asarray(out).shape[1])]      # by position (a name may be recorded twice)
     for p in positions:
         r0 = pre.meta['range'][p]
         r1 = rng_out[p]
@@ -262,7 +261,7 @@ def oracle_to_rfi(mon, pre, data, channels, at_arg, ag_arg, r_arg, out):
         mon.ctx.note('to_rfi with repeated channel (not judged)')
         return
     for p, at, ag, r in zip(pos, ats, ags, rs):
-        fs = file_settings(data, data.channels[p]) if pre.sample else None
+        fs = file_settings(data, data.channels[p], list(data.channels[:p]).count(data.channels[p])) if pre.sample else None
         if at is None:
             at = fs[0] if fs else None
         if at is None:
